@@ -105,11 +105,11 @@ func c13DrawEntry(t *rapid.T) c13Entry {
 	case "revert":
 		l = ledger.NewRevertedTransactionLog(c13LogDate(t), c13TxTargetID(t), c13Tx(t))
 	case "set_meta_account":
-		l = ledger.NewSetMetadataOnAccountLog(c13LogDate(t), gen.Address().Draw(t, "acc"), metadata.Metadata(gen.Metadata().Draw(t, "md")))
+		l = ledger.NewSetMetadataOnAccountLog(c13LogDate(t), c13MetaAddress(t), metadata.Metadata(gen.Metadata().Draw(t, "md")))
 	case "set_meta_tx":
 		l = ledger.NewSetMetadataOnTransactionLog(c13LogDate(t), c13TxTargetID(t), metadata.Metadata(gen.Metadata().Draw(t, "md")))
 	case "del_meta_account":
-		l = ledger.NewDeleteMetadataLog(c13LogDate(t), ledger.DeleteMetadataLogPayload{TargetType: ledger.MetaTargetTypeAccount, TargetID: gen.Address().Draw(t, "acc"), Key: gen.MetaString().Draw(t, "key")})
+		l = ledger.NewDeleteMetadataLog(c13LogDate(t), ledger.DeleteMetadataLogPayload{TargetType: ledger.MetaTargetTypeAccount, TargetID: c13MetaAddress(t), Key: gen.MetaString().Draw(t, "key")})
 	case "del_meta_tx":
 		l = ledger.NewDeleteMetadataLog(c13LogDate(t), ledger.DeleteMetadataLogPayload{TargetType: ledger.MetaTargetTypeTransaction, TargetID: c13TxTargetID(t), Key: gen.MetaString().Draw(t, "key")})
 	}
@@ -121,6 +121,16 @@ func c13DrawEntry(t *rapid.T) c13Entry {
 		l = l.WithIdempotencyKey(ik)
 	}
 	return c13Entry{Kind: kind, Log: l}
+}
+
+// c13MetaAddress is the account a metadata write names. The metadata routes of the API check the address
+// on some paths only (the bulk elements and the delete route hand it to the engine as it comes), so the
+// log may hold any string here: also characters JSON writes as escapes.
+func c13MetaAddress(t *rapid.T) string {
+	if rapid.IntRange(0, 4).Draw(t, "oddAddress") != 0 {
+		return gen.Address().Draw(t, "acc")
+	}
+	return rapid.SampledFrom([]string{"r&d", "a<b", "a>b", "q\"uote", "back\\slash", "tab\tx", "line\nbreak", "u\u2028x", "u\u2029x", "é:ü", "ctl\x01x", "users:001&", "\\u0026"}).Draw(t, "oddAddressValue")
 }
 
 func c13StoreRoundTrip(cl *ledger.ChainedLog) (*ledger.ChainedLog, error) {
